@@ -1007,3 +1007,326 @@ Proof.
   - simpl. unfold getc. rewrite (nth_error_nth _ _ _ Hj).
     destruct (c_kind x) as [s steps ip|]; [|discriminate]. simpl in Hx. inversion Hx; subst. exact Hlt.
 Qed.
+
+(** ** C04: delay-resolved cycles never produce a circular-coupling error *)
+
+(** fixed delay on the pulled part of a link ([None]: the pulled part contains something else than
+    pass-through adapters and non-negative fixed delays) *)
+Fixpoint edge_delay (ch : list adapter) : option Z :=
+  match ch with
+  | [] => Some 0
+  | APass :: r => edge_delay r
+  | AFixed d :: r => if 0 <=? d then option_map (Z.add d) (edge_delay r) else None
+  | ABuf :: _ => Some 0
+  | _ => None
+  end.
+
+Lemma edge_delay_nonneg ch : forall D, edge_delay ch = Some D -> 0 <= D.
+Proof.
+  induction ch as [|a ch IH]; intros D H; simpl in H; [inversion H; lia|].
+  destruct a; try discriminate; auto.
+  - destruct (0 <=? d) eqn:E; [|discriminate]. apply Z.leb_le in E.
+    destruct (edge_delay ch) as [D'|]; [|discriminate]. simpl in H. inversion H. specialize (IH D' eq_refl). lia.
+  - inversion H; lia.
+Qed.
+
+Lemma sched_walk_edge_bound ch : forall ss init pt t D lt,
+  edge_delay ch = Some D -> length ss = length ch ->
+  sched_walk ch ss init pt false t = Some lt -> lt <= Z.max (t - D) init.
+Proof.
+  induction ch as [|a ch IH]; intros ss init pt t D lt He L H; simpl in *.
+  - inversion He; inversion H; subst. lia.
+  - destruct ss as [|s ss]; [discriminate|]. simpl in L. injection L as L.
+    destruct a; try discriminate.
+    + eapply IH; eauto.
+    + destruct (0 <=? d) eqn:E; [|discriminate]. apply Z.leb_le in E.
+      destruct (edge_delay ch) as [D'|] eqn:E'; [|discriminate]. simpl in He. inversion He; subst D.
+      pose proof (edge_delay_nonneg ch D' E') as HD.
+      specialize (IH ss init pt _ D' lt eq_refl L H). simpl in IH. rewrite clamp_max in IH. lia.
+    + rewrite sched_walk_buffered in H. inversion He; inversion H; subst. lia.
+Qed.
+
+Definition maxstep (steps : list Z) : Z := fold_right Z.max 1 steps.
+
+Lemma maxstep_ge steps : forall x, In x steps -> x <= maxstep steps.
+Proof.
+  induction steps as [|y l IH]; intros x H; [destruct H|]. unfold maxstep in *. simpl.
+  destruct H as [->|H]; [lia|]. specialize (IH x H). lia.
+Qed.
+
+Lemma step_of_le_max steps k : step_of steps k <= maxstep steps.
+Proof.
+  unfold step_of. destruct steps as [|s0 l]; [simpl; lia|].
+  apply maxstep_ge. apply nth_In. apply Nat.mod_upper_bound. discriminate.
+Qed.
+
+Definition S_of (cs : composition) (c : nat) : Z :=
+  match c_kind (getc cs c) with KTime _ steps _ => maxstep steps | KPull => 0 end.
+
+Lemma next_time_le cs st c : is_time cs c = true -> next_time cs st c <= s_time st c + S_of cs c.
+Proof.
+  unfold next_time, S_of, is_time. destruct (c_kind (getc cs c)) as [s steps ip|]; [|discriminate].
+  intros _. pose proof (step_of_le_max steps (s_cnt st c)). lia.
+Qed.
+
+(** "every cycle carries fixed delays summing to at least the sum of the largest steps of its components",
+    in potential form: [phi] is a feasible potential for the edge weights [S(consumer) - delay(link)];
+    and no cycle consists of pull-based components only ([rank] decreases along their links). *)
+Record sufficient (cs : composition) (phi : nat -> Z) (rank : nat -> nat) : Prop := {
+  suf_edge : forall c k inp, nth_error (c_inputs (getc cs c)) k = Some inp ->
+     cut_by_nodep (i_chain inp) = true \/
+     exists D, edge_delay (i_chain inp) = Some D /\ phi c + S_of cs c - D <= phi (fst (i_src inp));
+  suf_rank : forall c k inp, nth_error (c_inputs (getc cs c)) k = Some inp ->
+     is_time cs c = false -> is_time cs (fst (i_src inp)) = false ->
+     cut_by_nodep (i_chain inp) = true \/ (rank (fst (i_src inp)) < rank c)%nat
+}.
+
+Section NoCirc.
+  Variable cs : composition.
+  Variable phi : nat -> Z.
+  Variable rank : nat -> nat.
+  Hypothesis Suf : sufficient cs phi rank.
+  Variable st : state.
+  Hypothesis HInv : Inv cs st.
+
+  Definition kval (e : nat * Z) : Z :=
+    (if is_time cs (fst e) then s_time st (fst e) else snd e) - phi (fst e).
+  Definition ksat (e : nat * Z) : Prop := is_time cs (fst e) = false /\ snd e <= t0_of cs.
+
+  Definition Jrel (cur e : nat * Z) : Prop :=
+    kval cur < kval e \/
+    (is_time cs (fst cur) = false /\ kval cur <= kval e /\
+     (is_time cs (fst e) = true \/ (is_time cs (fst e) = false /\ (rank (fst cur) < rank (fst e))%nat))).
+
+  Definition Krel (cur e : nat * Z) : Prop :=
+    (ksat cur /\ (~ ksat e \/ (rank (fst cur) < rank (fst e))%nat)) \/
+    (~ ksat cur /\ ~ ksat e /\ Jrel cur e).
+
+  Lemma Krel_irrefl e : ~ Krel e e.
+  Proof.
+    intros [[S [N|R]]|[N [_ [L|[P [_ [T|[_ R]]]]]]]]; try tauto; try lia. congruence.
+  Qed.
+
+  Lemma key_eqb_eq a b : key_eqb a b = true -> a = b.
+  Proof.
+    unfold key_eqb. destruct a, b; simpl. intros H. apply andb_prop in H. destruct H as [H1 H2].
+    apply Nat.eqb_eq in H1. apply Z.eqb_eq in H2. now subst.
+  Qed.
+
+  Lemma ksat_dec e : ksat e \/ ~ ksat e.
+  Proof.
+    unfold ksat. destruct (is_time cs (fst e)); [right; intros [H _]; discriminate|].
+    destruct (Z_le_gt_dec (snd e) (t0_of cs)); [left; auto|right; intros [_ H]; lia].
+  Qed.
+
+  (** one step of the recursion keeps the chain invariant *)
+  Lemma Krel_step c tgt chain k inp lt :
+    (forall e, In e chain -> Krel (chain_key cs c tgt) e) ->
+    nth_error (c_inputs (getc cs c)) k = Some inp ->
+    link_req cs st c k inp (target_of cs st c tgt) = Some lt ->
+    (is_time cs (fst (i_src inp)) = true -> s_time st (fst (i_src inp)) < lt) ->
+    forall e, In e (chain_key cs c tgt :: chain) ->
+      Krel (chain_key cs (fst (i_src inp)) (if is_time cs (fst (i_src inp)) then 0 else lt)) e.
+  Proof.
+    intros Hch Hk Hr Hlag.
+    set (src := fst (i_src inp)) in *.
+    destruct HInv as [Itime Ilen].
+    (* the link is not cut (it has a requirement), so it carries a fixed delay D *)
+    assert (exists D, 0 <= D /\ lt <= Z.max (target_of cs st c tgt - D) (init_of cs (i_src inp)) /\
+                      phi c + S_of cs c - D <= phi src) as [D [HD [Hlt Hphi]]].
+    { destruct (suf_edge cs phi rank Suf c k inp Hk) as [Hc|[D [He Hp]]].
+      - exfalso. unfold link_req in Hr.
+        pose proof (sched_walk_none_iff (i_chain inp) (s_link st c k) (init_of cs (i_src inp)) (ptime_of cs st (i_src inp))
+                      (target_of cs st c tgt) (Ilen c k inp Hk)) as [_ Hn]. rewrite (Hn Hc) in Hr. discriminate.
+      - exists D. split; [eapply edge_delay_nonneg; eauto|]. split; [|exact Hp].
+        unfold link_req in Hr. eapply sched_walk_edge_bound; eauto. }
+    pose proof (t0_le_init cs (i_src inp)) as Ht0.
+    set (cur := chain_key cs c tgt) in *.
+    set (nxt := chain_key cs src (if is_time cs src then 0 else lt)).
+    assert (Fc : fst cur = c) by reflexivity.
+    assert (Fn : fst nxt = src) by reflexivity.
+    (* upper bound of the target of [c] in terms of its value *)
+    assert (Htgt : ~ ksat cur -> target_of cs st c tgt <= kval cur + phi c + S_of cs c /\
+                   (is_time cs c = false -> target_of cs st c tgt = snd cur /\ S_of cs c = 0)).
+    { intros _. unfold target_of, kval, cur, chain_key; simpl. destruct (is_time cs c) eqn:Tc; simpl.
+      - pose proof (next_time_le cs st c Tc). split; [lia|discriminate].
+      - assert (S_of cs c = 0) as ->.
+        { unfold S_of. unfold is_time in Tc. destruct (c_kind (getc cs c)); [discriminate|reflexivity]. }
+        split; [lia|auto]. }
+    destruct (ksat_dec cur) as [Sc|Nc].
+    - (* saturated: a pull-based component asked for a time <= t0 *)
+      destruct Sc as [Tc Sle]. unfold cur, chain_key in Tc, Sle; simpl in Tc, Sle. rewrite Tc in Sle; simpl in Sle.
+      assert (Tg : target_of cs st c tgt = tgt) by (unfold target_of; now rewrite Tc).
+      rewrite Tg in Hlt.
+      destruct (is_time cs src) eqn:Ts.
+      + exfalso. specialize (Hlag eq_refl). specialize (Itime src (snd (i_src inp)) Ts).
+        assert (init_of cs (i_src inp) = init_of cs (src, snd (i_src inp))) by (unfold src; destruct (i_src inp); reflexivity).
+        lia.
+      + assert (Sn : ksat nxt).
+        { split; [exact Ts|]. unfold nxt, chain_key; simpl. rewrite Ts; simpl.
+          assert (init_of cs (i_src inp) = t0_of cs).
+          { unfold init_of. fold src. unfold is_time in Ts. destruct (c_kind (getc cs src)); [discriminate|reflexivity]. }
+          lia. }
+        assert (Rk : (rank src < rank c)%nat).
+        { destruct (suf_rank cs phi rank Suf c k inp Hk Tc Ts) as [Hc|R]; [|exact R].
+          exfalso. unfold link_req in Hr.
+          pose proof (sched_walk_none_iff (i_chain inp) (s_link st c k) (init_of cs (i_src inp)) (ptime_of cs st (i_src inp))
+                        (target_of cs st c tgt) (Ilen c k inp Hk)) as [_ Hn]. rewrite (Hn Hc) in Hr. discriminate. }
+        intros e [<-|He].
+        * left. split; [exact Sn|]. right. rewrite Fn, Fc. exact Rk.
+        * left. split; [exact Sn|]. destruct (Hch e He) as [[_ [N|R]]|[N _]].
+          -- left; exact N.
+          -- right. rewrite Fn. rewrite Fc in R. lia.
+          -- exfalso. apply N. split; [exact Tc|]. unfold cur, chain_key; simpl. rewrite Tc; simpl. exact Sle.
+    - destruct (Htgt Nc) as [Hub HP].
+      assert (AllN : forall e, In e chain -> ~ ksat e /\ Jrel cur e).
+      { intros e He. destruct (Hch e He) as [[S _]|[_ [N J]]]; [tauto|auto]. }
+      destruct (ksat_dec nxt) as [Sn|Nn].
+      + intros e [<-|He]; left; (split; [exact Sn|left]); [exact Nc|apply AllN; exact He].
+      + (* both unsaturated: the value does not increase, and decreases strictly into a time component *)
+        assert (Vn : kval nxt <= kval cur /\ (is_time cs src = true -> kval nxt < kval cur)).
+        { unfold kval at 1 3. rewrite Fn. unfold nxt, chain_key; simpl.
+          destruct (is_time cs src) eqn:Ts; simpl.
+          - specialize (Hlag eq_refl). specialize (Itime src (snd (i_src inp)) Ts).
+            assert (init_of cs (i_src inp) = init_of cs (src, snd (i_src inp))) by (unfold src; destruct (i_src inp); reflexivity).
+            split; [|intros _]; lia.
+          - split; [|discriminate].
+            assert (init_of cs (i_src inp) = t0_of cs).
+            { unfold init_of. fold src. unfold is_time in Ts. destruct (c_kind (getc cs src)); [discriminate|reflexivity]. }
+            assert (t0_of cs < lt).
+            { destruct (Z_le_gt_dec lt (t0_of cs)) as [Hle|]; [|lia]. exfalso. apply Nn. split; [exact Ts|].
+              unfold nxt, chain_key; simpl. rewrite Ts; simpl. exact Hle. }
+            lia. }
+        destruct Vn as [Vle Vlt].
+        intros e Hin. right. split; [exact Nn|].
+        destruct (is_time cs src) eqn:Ts.
+        * specialize (Vlt eq_refl). destruct Hin as [<-|He].
+          -- split; [exact Nc|]. left. exact Vlt.
+          -- destruct (AllN e He) as [Ne J]. split; [exact Ne|]. left.
+             destruct J as [L|[_ [L _]]]; lia.
+        * destruct Hin as [<-|He].
+          -- split; [exact Nc|]. right. rewrite Fn, Fc. split; [exact Ts|]. split; [exact Vle|].
+             destruct (is_time cs c) eqn:Tc; [left; reflexivity|right]. split; [reflexivity|].
+             destruct (suf_rank cs phi rank Suf c k inp Hk Tc Ts) as [Hc|R]; [|exact R].
+             exfalso. unfold link_req in Hr.
+             pose proof (sched_walk_none_iff (i_chain inp) (s_link st c k) (init_of cs (i_src inp)) (ptime_of cs st (i_src inp))
+                           (target_of cs st c tgt) (Ilen c k inp Hk)) as [_ Hn]. rewrite (Hn Hc) in Hr. discriminate.
+          -- destruct (AllN e He) as [Ne J]. split; [exact Ne|].
+             destruct J as [L|[Pc [L Alt]]]; [left; lia|].
+             right. rewrite Fn. split; [exact Ts|]. split; [lia|].
+             destruct Alt as [Te|[Te R]]; [left; exact Te|right]. split; [exact Te|].
+             rewrite Fc in Pc, R.
+             destruct (suf_rank cs phi rank Suf c k inp Hk Pc Ts) as [Hc|R']; [|fold src in R'; lia].
+             exfalso. unfold link_req in Hr.
+             pose proof (sched_walk_none_iff (i_chain inp) (s_link st c k) (init_of cs (i_src inp)) (ptime_of cs st (i_src inp))
+                           (target_of cs st c tgt) (Ilen c k inp Hk)) as [_ Hn]. rewrite (Hn Hc) in Hr. discriminate.
+  Qed.
+
+  Lemma no_circ fuel : forall acc c chain tgt,
+    (forall e, In e chain -> Krel (chain_key cs c tgt) e) ->
+    update_rec fuel cs st acc c chain tgt <> UCirc.
+  Proof.
+    induction fuel as [|fuel IH]; intros acc c chain tgt Hch; simpl; [discriminate|].
+    destruct (existsb (key_eqb (chain_key cs c tgt)) chain) eqn:Ex.
+    - exfalso. apply existsb_exists in Ex. destruct Ex as [e [He Heq]]. apply key_eqb_eq in Heq. subst e.
+      exact (Krel_irrefl _ (Hch _ He)).
+    - intros H.
+      set (rec := fun c' t' => update_rec fuel cs st acc c' (chain_key cs c tgt :: chain) t') in H.
+      match type of H with dep_loop cs rec ?f ?d = _ => destruct (dep_loop_inv cs rec f d _ H) as [[Hf _]|[o [lt [Hin Hc]]]] end.
+      + destruct (is_time cs c); [destruct (do_update cs st c acc) as [[? ?] ?]|]; discriminate.
+      + destruct (find_deps_sound _ _ _ _ _ _ Hin) as [k [inp [Hk [Ho [Hr Hlag]]]]]. subst o.
+        destruct Hc as [[Ti Hrec]|[Tp [Hrec _]]]; unfold rec in Hrec; symmetry in Hrec.
+        * assert (Hstep := Krel_step c tgt chain k inp lt Hch Hk Hr Hlag). rewrite Ti in Hstep.
+          exact (IH _ _ _ _ Hstep Hrec).
+        * assert (Hstep := Krel_step c tgt chain k inp lt Hch Hk Hr Hlag). rewrite Tp in Hstep.
+          exact (IH _ _ _ _ Hstep Hrec).
+  Qed.
+End NoCirc.
+
+Lemma run_loop_no_circ cs (W : wf cs) phi rank (Suf : sufficient cs phi rank) endt fuel : forall st acc o st' acc',
+  Inv cs st -> run_loop fuel cs endt st acc = (o, st', acc') -> o <> OCirc.
+Proof.
+  induction fuel as [|fuel IH]; intros st acc o st' acc' Hinv H; cbn [run_loop] in H.
+  - inversion H; discriminate.
+  - destruct (pick_min cs st 0 cs None) as [c|]; [|inversion H; discriminate].
+    destruct (update_rec (rec_fuel cs) cs st acc c [] 0) as [u st1 acc1 e1| | |] eqn:U;
+      try (inversion H; discriminate).
+    + destruct (update_rec_ok cs W _ _ _ _ _ _ _ _ _ _ Hinv U) as [_ [_ [_ [I1 _]]]].
+      destruct e1 as [[| |]|]; try (inversion H; discriminate).
+      destruct (any_running st1 0 cs endt); [eapply IH; eauto|inversion H; discriminate].
+    + exfalso. apply (no_circ cs phi rank Suf st Hinv (rec_fuel cs) acc c [] 0); [intros e []|exact U].
+Qed.
+
+(** ** C04: an undelayed cycle among equally advanced components is never run through *)
+
+Fixpoint all_pass (ch : list adapter) : bool :=
+  match ch with [] => true | APass :: r => all_pass r | _ => false end.
+
+Lemma sched_walk_all_pass ch : forall ss init pt t, all_pass ch = true -> sched_walk ch ss init pt false t = Some t.
+Proof.
+  induction ch as [|a ch IH]; intros ss init pt t H; simpl; [reflexivity|].
+  destruct ss as [|s ss]; [reflexivity|]. destruct a; try discriminate. apply IH; exact H.
+Qed.
+
+(** every member of [cyc] is a time component with an input that comes, through pass-through adapters only,
+    from another member *)
+Definition und_cycle (cs : composition) (cyc : list nat) : Prop :=
+  cyc <> [] /\
+  forall c, In c cyc -> is_time cs c = true /\
+    exists k inp, nth_error (c_inputs (getc cs c)) k = Some inp /\ all_pass (i_chain inp) = true /\
+                  In (fst (i_src inp)) cyc.
+
+Lemma und_cycle_not_updated cs (W : wf cs) cyc T st acc fuel c chain tgt u st' acc' e :
+  und_cycle cs cyc -> (forall x, In x cyc -> s_time st x = T) ->
+  update_rec fuel cs st acc c chain tgt = UUpdated u st' acc' e -> ~ In u cyc.
+Proof.
+  intros [_ Hc] HT U Hu.
+  destruct (update_rec_props fuel cs st acc c chain tgt) as [_ HB].
+  destruct (HB _ _ _ _ U) as [Tu [_ [Su _]]].
+  destruct (Hc u Hu) as [_ [k [inp [Hk [Hp Hin]]]]].
+  destruct fuel as [|fuel]; [destruct Su|].
+  assert (Hr : link_req cs st u k inp (next_time cs st u) = Some (next_time cs st u)).
+  { unfold link_req. apply sched_walk_all_pass; exact Hp. }
+  destruct (Su k inp _ Hk Hr) as [H1 _].
+  destruct (Hc _ Hin) as [Tsrc _]. specialize (H1 Tsrc).
+  rewrite (HT _ Hin) in H1. pose proof (next_time_gt cs W st u Tu) as G. rewrite (HT u Hu) in G. lia.
+Qed.
+
+Lemma run_loop_und_cycle cs (W : wf cs) cyc T endt fuel : forall st acc o st' acc',
+  und_cycle cs cyc -> (forall x, In x cyc -> s_time st x = T) -> T < endt -> Inv cs st ->
+  run_loop fuel cs endt st acc = (o, st', acc') -> o <> OOk.
+Proof.
+  induction fuel as [|fuel IH]; intros st acc o st' acc' Hc HT Hlt Hinv H; cbn [run_loop] in H.
+  - inversion H; discriminate.
+  - destruct Hc as [Hne Hc'] eqn:Ecyc. clear Ecyc.
+    assert (Hcyc : und_cycle cs cyc) by (split; assumption).
+    destruct (pick_min cs st 0 cs None) as [c|] eqn:PM.
+    + destruct (update_rec (rec_fuel cs) cs st acc c [] 0) as [u st1 acc1 e1| | |] eqn:U;
+        try (inversion H; discriminate).
+      destruct (update_rec_ok cs W _ _ _ _ _ _ _ _ _ _ Hinv U) as [_ [_ [_ [I1 [_ Tother]]]]].
+      pose proof (und_cycle_not_updated cs W cyc T st acc _ c [] 0 u st1 acc1 e1 Hcyc HT U) as Hnu.
+      assert (HT1 : forall x, In x cyc -> s_time st1 x = T).
+      { intros x Hx. rewrite Tother; [apply HT; exact Hx|]. intros ->. exact (Hnu Hx). }
+      destruct e1 as [[| |]|]; try (inversion H; discriminate).
+      destruct (any_running st1 0 cs endt) eqn:AR; [eapply IH; eauto|].
+      exfalso. destruct cyc as [|x cyc']; [congruence|].
+      destruct (Hc' x (or_introl eq_refl)) as [Tx _].
+      destruct (is_time_kind cs x Tx) as [s [steps [ip K]]].
+      assert (Lx : (x < length cs)%nat).
+      { destruct (le_lt_dec (length cs) x) as [Hge|]; [|assumption].
+        unfold getc in K. rewrite nth_overflow in K by exact Hge. discriminate. }
+      destruct (nth_error cs x) as [y|] eqn:E; [|apply nth_error_None in E; lia].
+      pose proof (any_running_false st1 endt cs O AR x y E) as G. simpl in G.
+      unfold getc in K. rewrite (nth_error_nth _ _ _ E) in K.
+      specialize (G (ex_intro _ s (ex_intro _ steps (ex_intro _ ip K)))).
+      rewrite (HT1 x (or_introl eq_refl)) in G. lia.
+    + (* no time component: impossible, the cycle has one *)
+      exfalso. destruct cyc as [|x cyc']; [congruence|].
+      destruct (Hc' x (or_introl eq_refl)) as [Tx _].
+      pose proof (pick_min_spec_gen cs st cs O None) as G. rewrite PM in G. simpl in G.
+      assert (Hn : forall c', (c' < length cs)%nat -> is_time cs c' = false).
+      { apply G; [intros; reflexivity|intros; lia]. }
+      destruct (le_lt_dec (length cs) x) as [Hge|Hl].
+      * unfold is_time, getc in Tx. rewrite nth_overflow in Tx by exact Hge. discriminate.
+      * rewrite (Hn x Hl) in Tx. discriminate.
+Qed.
